@@ -57,11 +57,24 @@ def known_findings():
 _V = None
 
 
+class _Budget(Exception):
+    pass
+
+
 def _worker(task):
     global _V
     cid, binding, tier, timeout_ms = task
     from . import api
     from .verify import Verifier
+    import signal
+    from .sym import set_ctx
+
+    def _alarm(signum, frame):
+        raise _Budget()
+    budget = int(os.environ.get("PYVC_INSTANCE_BUDGET", "150" if tier == "quick" else "1500"))
+    signal.signal(signal.SIGALRM, _alarm)
+    signal.alarm(budget)
+    t0 = time.time()
     try:
         if _V is None:
             _V = Verifier(repo=REPO, verif=VERIF, timeout_ms=timeout_ms, tier=tier)
@@ -70,9 +83,21 @@ def _worker(task):
         d = r.as_dict()
         d["covers"] = r.covers
         d["aborted"] = r.aborted_paths
+        if os.environ.get("PYVC_VERBOSE"):
+            sys.stderr.write(f"[{time.time() - t0:7.1f}s] {cid} {list(binding.values())} paths={r.paths} oor={r.out_of_reach}\n")
         return d
+    except _Budget:
+        set_ctx(None)
+        _V = None
+        if os.environ.get("PYVC_VERBOSE"):
+            sys.stderr.write(f"[{time.time() - t0:7.1f}s] {cid} {list(binding.values())} TIME BUDGET\n")
+        return {"contract": cid, "binding": binding, "paths": 0, "out_of_reach": f"time budget of {budget}s per instance exhausted",
+                "obligations": [], "inlined": [], "substituted": [], "secs": time.time() - t0, "notes": [], "solver_calls": 0,
+                "covers": 1, "aborted": 0}
     except Exception as e:
         return {"contract": cid, "binding": binding, "crash": traceback.format_exc()}
+    finally:
+        signal.alarm(0)
 
 
 def run_native(args, timeout=600):
@@ -104,7 +129,8 @@ def check(prop, tier, seed):
     api = load_contracts()
     kf = known_findings()
     items = [c for c in api.REGISTRY + api.LEMMAS if prop in c.props]
-    proved = [c for c in items if not getattr(c, "assumed", False)]
+    proved = [c for c in items if not getattr(c, "assumed", False)
+              and (tier == "thorough" or getattr(c, "tier", "quick") == "quick")]
     tasks = []
     timeout_ms = 20000 if tier == "quick" else 80000
     for c in proved:
